@@ -57,8 +57,8 @@ def run(R):
     R.rule("C06-R7", "tag store semantics: an absent tag reads as one(); update_disjunction stores disjunction(old, new) and reports a change "
                      "exactly when the result is not saturated")
     R.rule("C06-R8", "the exact model counter has no shortcut: every value shannon_wmc returns is a constant of a base case, the memoised value, or "
-                     "computed from the recursive counts of both cofactors. A return computed in any other way (a closed form for `independent` "
-                     "clauses, noisy-OR, an inclusion-exclusion cut-off) is only right when its side condition is right - and literals of the "
+                     "computed from the recursive counts of both cofactors; a closed form is accepted for a single proof, or under an independence "
+                     "test that compares the proofs' variables. A closed form whose side condition compares signed literals is wrong: literals of the "
                      "same seed with opposite polarity are not independent")
     r8(R)
     # ---- R1 (positive round) and R3, shared with C12
@@ -385,6 +385,30 @@ def r8(R):
         from_memo = any(t[0] == "param" and t[1] == "memo" for t in terms) and not (calls - {"get", "copied", "cloned", "deref"})
         const_only = not calls and not any(t[0] in ("param", "field") for t in terms)
         ok = from_rec or from_memo or const_only
+        why = None
+        if not ok:
+            # a closed form is acceptable for a single proof (a product of literal weights is exact), or under an independence test that compares
+            # the proofs' VARIABLES; a test on signed literals treats (x,true) and (x,false) as unrelated
+            from lib import guards as G
+            bbr = d[1]
+            conds = G.conditions(b, bbr)
+            single = any(cd.get("kind") == "call" and cd["call"].name() == "len" for cd in conds) or \
+                any(cd.get("kind") == "cmp" and "len" in str(cd) for cd in conds)
+            guard_calls = [cd["call"] for cd in conds if cd.get("kind") == "call" and cd["call"].key in prog.bodies]
+            on_vars = False
+            on_literals = False
+            for gc in guard_calls:
+                for x in prog.family(gc.key):
+                    for c2 in x.calls():
+                        if c2.name() in ("is_disjoint", "intersection", "is_subset", "contains", "union") and c2.args and F.op_place(c2.args[0]) is not None:
+                            t = x.local_ty(F.op_place(c2.args[0])["l"])
+                            if "(u32, bool)" in t:
+                                on_literals = True
+                            elif "u32" in t:
+                                on_vars = True
+            ok = single or (on_vars and not on_literals)
+            why = "this return is computed through %s without the Shannon expansion%s" % (
+                sorted(calls)[:5], "; its side condition compares signed literals, so proofs that use one seed with opposite polarity count as independent" if on_literals else "")
         R.ob("C06-R8", "return-by-expansion", "a value shannon_wmc returns is a base-case constant, the memoised value or built from the recursive counts", ok,
-             where=b.where(ln), detail=None if ok else "this return is computed through %s without the Shannon expansion" % sorted(calls)[:5])
+             where=b.where(ln), detail=None if ok else why)
     R.floor("C06-R8", "assignments to shannon_wmc's result", nret, 3)
